@@ -38,6 +38,11 @@ CHECKS = {
             "1..8 connections pipeline 1..256 requests whose handlers block until a LATER request (same connection, incl. the fully reversed chain, or another connection) has entered its handler; a correct dispatcher always completes, a serial or globally locked one deadlocks. Request.ID must equal the arrival position and ConnectionID must be stable per connection and distinct across connections. A missed bound counts only with two identical goroutine censuses 0.5 s apart (otherwise inconclusive).",
             "liveness is decided as a bounded wait (15 s against a normal few ms) plus stable-census evidence",
             "DESIGN.md §4 C06"),
+    "C07": ("fault_enumeration",
+            "fault enumeration in worker child processes: complete enumeration fault kind x operation x before/after write x panic value, plus rapid-generated surrounding traffic; oracle = child survives + bystander results",
+            "Every fault of the enumeration (handler panic with a string / error / nil-dereference / custom value, before and after writing, in the handler of each operation incl. StartTLS, unbind and the default route; malformed frame; RST mid-frame; truncated frame + FIN; handler writing to a client that has gone; client that never reads megabytes; descriptor exhaustion at accept with RLIMIT_NOFILE lowered in the child) is injected into verified request/response traffic of bystander connections inside a child process. The child must survive, Run must not have returned, every bystander response must be correct and a new connection must be served. Complete over the enumeration in both tiers; traffic around it is generated.",
+            "the parent attributes a child death/hang to the scenario whose begin marker was seen last and re-runs the rest in a fresh child; panic recovery is enabled (the statement's default)",
+            "DESIGN.md §4 C07"),
     "C08": ("exploration",
             "property-based scenario testing (rapid): connection endings x in-flight handler states x transports with gates owned by the harness; event-history invariants over a global sequence counter; goroutine and descriptor census",
             "Generated scenarios end 1..32 connections (plain/TLS/StartTLS) by FIN, RST, Unbind, malformed frame, unsupported operation, mid-frame disconnect, recovered panic, read timeout or Stop, with 0..4 handlers blocked on a harness gate (opened only after the ending was triggered) or writing megabytes to a non-reading client. Invariants over the recorded history: exactly one OnClose per connection with the ConnectionID its handlers saw, stamped after every handler exit; the client-visible close of server-initiated endings also after every handler exit; no connection goroutine or socket descriptor left. The harness controls handler progress, not the Go scheduler.",
@@ -53,6 +58,11 @@ CHECKS = {
             "Generated pipelines put 0..8 requests behind an Unbind (same write() or split at generated offsets) while any subset of the 0..8 earlier handlers is held on a gate; the oracle demands no handler entry and no response for anything after the Unbind, no response to the Unbind, the unbind handler exactly once iff registered, every earlier request answered once, and the close (client EOF and OnClose) stamped after every earlier handler's exit.",
             "the gate opens 0..40 ms after sending; a missing close is reported after 8 s (a correct server needs milliseconds after the gate opens)",
             "DESIGN.md §4 C10"),
+    "C11": ("fault_enumeration",
+            "fault enumeration in worker child processes: every single connection state and every pair of states at Stop time (with/without concurrent second Stop), plus rapid-generated multisets of up to 16 connections; bounded-wait oracle backed by a stable goroutine census",
+            "Connection states at the moment Stop is called - idle, idle after served requests, first k bytes of a frame sent, TCP connected to a TLS listener with no / partial ClientHello, idle inside a TLS session, pipelining as fast as it can, requesting a 13 MB answer and never reading - are enumerated completely for singles and pairs and generated beyond; clients never close by themselves. Stop must return and Run must return nil within 5 s (a correct server needs at most the 500 ms write grace); a miss is a violation only with two identical goroutine censuses 0.5 s apart, otherwise inconclusive.",
+            "liveness decided as bounded wait + stability evidence; hung children are killed by the parent",
+            "DESIGN.md §4 C11"),
     "C12": ("exploration",
             "property-based scenario testing (rapid) of Stop/Run orders and connection states with harness-owned gates; counters sampled at the instant Stop returns + bind probe on the port",
             "Orders {Stop before Run, concurrently with Run's start after generated yields, after Ready, twice in sequence, twice concurrently} x 0..6 connections whose handler / OnClose callback is held on a gate that a TIMER opens 20..250 ms after Stop was called (every client has already left, so C11's hang cannot mask the property). At the instant Stop returns the in-flight handler counter must be 0 and completed OnClose callbacks must equal accepted connections - facts read from counters, not timing guesses; after Run returned nil the port must refuse connections and be bindable again.",
